@@ -300,6 +300,34 @@ def run_case(case, ctx):
                       lambda: "%s(%s form) on valid input: Reconcile=False gives %r, "
                               "default gives %r" % (name, fname, jo, jc))
 
+    # ---- "No function ever changes the trains passed to it" - also with reconciliation
+    # switched off on input that is valid up to the granted 1e-6 tolerance (a first /
+    # last spike a few 1e-7 outside the edges); results are not judged here
+    _, _, ex_all = _expected(case)
+    shifted = []
+    for k, sp in enumerate(ex_all):
+        sp = list(sp)
+        if sp and k % 2 == 0 and sp[0] == t0:
+            sp[0] = t0 - 4e-7
+        if sp and k % 2 == 1 and sp[-1] == t1:
+            sp[-1] = t1 + 4e-7
+        shifted.append(sp)
+    if shifted != [list(x) for x in ex_all]:
+        for name, kind, fn, keys in entry_points():
+            b = [pyspike.SpikeTrain(np.array(sp, dtype=float), [t0, t1]) for sp in shifted]
+            sb = _snap(b)
+            try:
+                with __import__("pbt.env", fromlist=["quiet"]).quiet():
+                    if kind == "pair":
+                        fn(b[0], b[1], Reconcile=False)
+                    else:
+                        fn(b, Reconcile=False)
+            except Exception:
+                pass
+            ctx.check(_snap(b) == sb, "input_modified:" + name,
+                      lambda: "%s(Reconcile=False) changed the spike trains passed to it: "
+                              "%r -> %r" % (name, shifted, [list(x.spikes) for x in b]))
+
     # ---- filter (a measure entry point too)
     a = messy()
     sa = _snap(a)
